@@ -18,6 +18,7 @@ abbrev Cand := Nat
 ZeroDivision, Key, Attribute, anything else). -/
 inductive Exn where
   | typeError | valueError | indexError | zeroDiv | keyError | attrError | unbound | other
+  | emptyData | dataError | fileNotFound
   deriving DecidableEq, Repr, Inhabited
 
 /-- Result of a model entry point. Nothing is totalised silently. -/
